@@ -117,6 +117,8 @@ pub struct MSession {
     pub user: u32,
     /// server-side client id, learned from get_me
     pub client_id: Option<u32>,
+    /// the user this connection was logged in as when that user was deleted
+    pub deleted_user: Option<u32>,
 }
 
 #[derive(Clone, Debug, Default, Serialize)]
